@@ -14,22 +14,25 @@ func init() {
 	verifRegister("VerifC19_Generate", VerifC19_Generate)
 }
 
-var verifObjNames = [2]string{"alpha", "beta"}
-var verifPropNames = [2]string{"count", "name"}
+var verifObjNames = [3]string{"alpha", "beta", "gamma"}
+var verifPropNames = [3]string{"count", "name", "size"}
 
-func verifCodegenSchema() (schema, int, [2]int, [2][2]string) {
+func verifCodegenSchema() (schema, int, [3]int, [3][3]string) {
 	var s schema
-	nObj := nondetChoice("nobj", 3)
+	// quick: 0..2 objects x 0..2 properties; thorough: 0..3 objects x 0..2 properties (every iteration order of
+	// every map is explored: 3 x 3 would be 6 x 6^3 orders per shape)
+	maxN := 3
+	nObj := nondetChoice("nobj", 3+verifTier())
 	typeIDs := [5]string{"integer", "float", "ref", "string", "bool"}
 	base := nondetChoice("typeBase", 5)
-	var nProps [2]int
-	var types [2][2]string
+	var nProps [3]int
+	var types [3][3]string
 	s.Steps.Create.Input.Objects = map[string]struct {
 		Id         string               `yaml:"id"`
 		Properties map[string]*property `yaml:"properties"`
 	}{}
 	for i := 0; i < nObj; i++ {
-		nProps[i] = nondetChoice(verifNm("nprops", i), 3)
+		nProps[i] = nondetChoice(verifNm("nprops", i), maxN)
 		props := map[string]*property{}
 		for j := 0; j < nProps[i]; j++ {
 			p := &property{}
